@@ -321,13 +321,21 @@ impl W3Scenario {
 fn full_solve_case(case_seed: u64, tier: Tier) -> CaseRecord {
     let w1 = crate::scen::w1::W1Scenario { prop: "C15" };
     let mut rec = w1.run_case(case_seed, tier);
+    attribute_to_c15(&mut rec);
+    rec.count("clause2.full_solves", 1);
+    rec
+}
+
+fn attribute_to_c15(rec: &mut CaseRecord) {
     for i in rec.issues.iter_mut() {
-        if matches!(i.prop.as_str(), "C01" | "C02" | "C03") {
+        // a run which panics or returns an error instead of a solution is not a valid run either
+        if matches!(i.prop.as_str(), "C01" | "C02" | "C03") || (i.prop == "C07" && matches!(i.rule.as_str(), "panic" | "solve-error")) {
+            if i.rule == "panic" && i.msg.contains("ComponentRange") && i.msg.contains("timestamp") {
+                i.sig = if i.sig.is_empty() { "timestamp-out-of-range".into() } else { format!("{}|timestamp-out-of-range", i.sig) };
+            }
             i.prop = "C15".into();
         }
     }
-    rec.count("clause2.full_solves", 1);
-    rec
 }
 
 impl Scenario for W3Scenario {
@@ -374,11 +382,7 @@ impl Scenario for W3Scenario {
         }
         if matches!(doc.get("kind").and_then(|k| k.as_str()), Some("w1") | Some("restart")) {
             let mut rec = crate::scen::w1::W1Scenario { prop: "C15" }.replay(doc);
-            for i in rec.issues.iter_mut() {
-                if matches!(i.prop.as_str(), "C01" | "C02" | "C03") {
-                    i.prop = "C15".into();
-                }
-            }
+            attribute_to_c15(&mut rec);
             return rec;
         }
         match W3Case::from_json(doc) {
